@@ -291,10 +291,12 @@ KVALS = {
     "D": ["2.5", "0.5", "4.0"],
     "B": ["true", "false", "true"],
     "X": ['raw("a,b")', 'raw(",")', 'raw("-")'],
+    # tables as arguments (of tab, put, insert, concat and as receivers): no tuple can hold one, so there is no "item" kind for them
+    "T": ["tab(2, 7)", "tab(1, 8)", "tab(3, 9)"],
 }
-KTMP = {"S": '(%s + "")', "I": "(%s + 0)", "D": "(%s * 1.0)", "B": "(%s and true)", "X": "subraw(%s, 0)"}
-KNULL = {"S": "str()", "I": "int()", "D": "num()", "B": "bool()", "X": "raw()"}
-KTYPE = {"S": "string", "I": "integer", "D": "decimal", "B": "boolean", "X": "bytes"}
+KTMP = {"S": '(%s + "")', "I": "(%s + 0)", "D": "(%s * 1.0)", "B": "(%s and true)", "X": "subraw(%s, 0)", "T": "ftid(%s)"}
+KNULL = {"S": "str()", "I": "int()", "D": "num()", "B": "bool()", "X": "raw()", "T": "tab()"}
+KTYPE = {"S": "string", "I": "integer", "D": "decimal", "B": "boolean", "X": "bytes", "T": "table"}
 KINDS = ("const", "var", "tmp", "elem", "item", "fret", "param")
 
 
@@ -306,11 +308,13 @@ def kprelude():
         out.append("kt%s = tab(0, %s);" % (t.lower(), vals[0]))
         for i, v in enumerate(vals):
             out.append("kt%s.concat(%s);" % (t.lower(), v))
-        out.append("kr%s = tup(%s);" % (t.lower(), ", ".join(vals)))
+        if t != "T":
+            out.append("kr%s = tup(%s);" % (t.lower(), ", ".join(vals)))
         for i, v in enumerate(vals):
             out.append("function f%s%d() return %s is begin return %s; end;" % (t.lower(), i, KTYPE[t], v))
         # a null of the type, as a variable
         out.append("kn%s = %s;" % (t.lower(), KNULL[t]))
+    out.append("function ftid(x) return table is begin return x; end;")
     return " ".join(out)
 
 
@@ -359,6 +363,12 @@ KSIGS = [
     ("%s.at(%s)", "SI"), ("%s.at(%s)", "XI"), ("%s.count()", "S"), ("%s.count()", "X"),
     ("%s.concat(%s)", "SS"), ("%s.concat(%s)", "SI"), ("%s.concat(%s)", "XX"), ("%s.concat(%s)", "XI"), ("%s.put(%s, %s)", "SII"),
     ("%s.insert(%s, %s)", "SIS"), ("%s.insert(%s, %s)", "XIX"), ("%s.delete(%s)", "SI"), ("%s.delete(%s)", "XI"),
+    # table arguments stored into / appended to temporaries and variables, and tables as receivers
+    ("tab(2, %s)", "T"), ("tab(2, tab(1, 0)).put(1, %s)", "T"), ("tab(1, tab(1, 0)).insert(0, %s)", "T"), ("tab(1, tab(1, 0)).concat(%s)", "T"),
+    ("tab(0, 0).concat(%s)", "T"), ("tab(1, 5).insert(0, %s)", "T"), ("tab(2, tab(1, 0)).put(%s, %s)", "IT"), ("ftid(%s).count()", "T"),
+    ("tab(2, %s).at(1).at(0)", "T"), ("tab(2, tab(1, 0)).put(1, %s).at(1).count()", "T"), ("tab(1, 5).insert(0, %s).at(0)", "T"),
+    ("%s.count()", "T"), ("%s.at(%s)", "TI"), ("%s.concat(%s)", "TI"), ("%s.concat(%s)", "TT"), ("%s.put(%s, %s)", "TII"), ("%s.insert(%s, %s)", "TIT"),
+    ("%s.insert(%s, %s)", "TII"), ("%s.delete(%s)", "TI"),
 ]
 KINPLACE = re.compile(r"^%s\.(concat|put|insert|delete)\(")
 
@@ -374,15 +384,15 @@ def kinds_gen(tier):
             inplace = bool(KINPLACE.match(fmt))
             ref = fmt % tuple(karg(t, i, "const") for i, t in enumerate(types))
             for combo in __import__("itertools").product(kinds, repeat=arity):
-                if all(k == "const" for k in combo) and not inplace:
-                    pass
+                if any(t == "T" and k == "item" for t, k in zip(types, combo)):
+                    continue
                 e = fmt % tuple(karg(t, i, k) for i, (t, k) in enumerate(zip(types, combo)))
                 root = None
                 if inplace and combo[0] in ("var", "elem", "item"):
                     tl = types[0].lower()
                     root = {"var": "K%s0" % tl.upper(), "elem": "KT%s" % tl.upper(), "item": "KR%s" % tl.upper()}[combo[0]]
                 variants = [(e, ref, "")]
-                if not inplace:
+                if not inplace and "T" not in types:
                     # an in-place method chained on the result works on the result, never on an operand the result was taken from
                     variants.append(('(%s).concat("!")' % e, '(%s).concat("!")' % ref, "+concat"))
                 for e2, ref2, suffix in variants:
@@ -397,6 +407,8 @@ def kinds_gen(tier):
                 for pnull in range(arity):
                     for nk in ("nconst", "nvar"):
                         for ok in ("var", "elem", "item"):
+                            if ok == "item" and "T" in types:
+                                continue
                             combo = tuple(nk if i == pnull else ok for i in range(arity))
                             e = fmt % tuple(karg(t, i, k) for i, (t, k) in enumerate(zip(types, combo)))
                             ref = fmt % tuple(karg(t, i, "nconst" if i == pnull else "const") for i, t in enumerate(types))
